@@ -108,7 +108,7 @@ static void dump_entry(const char *name) {
     case GD_ALIAS_ENTRY: dput(" target="); dput_str(gd_alias_target(D, name)); break;
     default: break;
   }
-  { const char *tg = gd_alias_target(D, name); if (tg) { dput(" ALIAS-OF="); dput_str(tg); } else gd_error(D); }
+  { const char *tg = gd_alias_target(D, name); if (tg) { dput(" ALIAS-OF="); dput_str(tg); dput(" afrag=%d ", gd_fragment_index(D, name)); } else gd_error(D); }
   dput(" hid=%d", gd_hidden(D, name));
   gd_free_entry_strings(&E);
 }
